@@ -343,7 +343,17 @@ Fixpoint insert_nat (x : nat) (l : list nat) : list nat :=
   end.
 Definition sort_nat (l : list nat) : list nat := fold_right insert_nat [] l.
 
-(** (lines, calls, tree) *)
+(** the resolver invocations as [C13_gated_never_called] reads them off a run: the GetField
+    answers ([resolved_fields]) of the part of the trace that follows validation *)
+Definition exec_trace_calls (fx : fixes) (S : schema) (F : features) (d : sdoc) : list (name * name) :=
+  let nval := List.length (fst (run fx S F [] (sdoc_validate d))) in
+  map (fun x => fst x) (resolved_fields (skipn nval (fst (run fx S F [] (sdoc_prog (sdoc_fuel d) d))))).
+
+Definition calls_eqb (a b : list (name * name)) : bool :=
+  sexp_eqb (SL (map enc_call a)) (SL (map enc_call b)).
+
+(** (lines, calls, tree); [None] also when the executor's own log differs from the GetField answers
+    of its trace (then the theorem about resolver invocations would not speak about this log) *)
 Definition model_sdoc (fx : fixes) (S : schema) (F : features) (d : sdoc) : option sexp :=
   match snd (run fx S F [] (sdoc_prog (sdoc_fuel d) d)) with
   | Done (errs, r) =>
@@ -352,8 +362,10 @@ Definition model_sdoc (fx : fixes) (S : schema) (F : features) (d : sdoc) : opti
       | None => Some (SL [lines; tag "calls" []; tag "tree" [SSym "no-data"]])
       | Some None => None                                         (* out of fuel *)
       | Some (Some (log, v)) =>
-          Some (SL [lines; tag "calls" (map enc_call log);
-                    tag "tree" [match v with Some x => enc_rval x | None => SSym "null" end]])
+          if calls_eqb log (exec_trace_calls fx S F d) then
+            Some (SL [lines; tag "calls" (map enc_call log);
+                      tag "tree" [match v with Some x => enc_rval x | None => SSym "null" end]])
+          else None
       end
   | Forged => None
   end.
@@ -545,7 +557,7 @@ Definition compare_req (S E : schema) (F G : features) (r : list sexp) : option 
                         if negb (sexp_eqb ma (seen a)) then Some (v_mismatch "sdoc-full-schema" [ma; seen a])
                         else if negb (sexp_eqb mb (seen b)) then Some (v_mismatch "sdoc-erased-schema" [mb; seen b])
                         else None
-                    | _, _ => Some (v_mismatch "sdoc-program-forged-a-handle-or-ran-out-of-fuel" [])
+                    | _, _ => Some (v_mismatch "sdoc-program-forged-a-handle-or-ran-out-of-fuel-or-log-differs-from-trace" [])
                     end
                 | None => Some (v_bad "sdoc")
                 end
